@@ -14,11 +14,16 @@ EXTENDS Naturals, Sequences, FiniteSets
 \* below a static hostname whose handler routes another request by hand (Router.Lookup) while its own context is in use
 Shapes == {"direct", "tsr", "redirect", "noroute", "nomethod", "options", "lookup", "lookupclone", "clonewith", "clone",
            "tsrclone", "hostdirect", "hosttsr", "statichost", "hijack", "txnlookup",
-           "staticdirect", "statictsr", "tsrclonewith", "tsrlookup", "wrapclone", "directcopy", "noroutecopy"}
+           "staticdirect", "statictsr", "tsrclonewith", "tsrlookup", "wrapclone", "directcopy", "noroutecopy",
+           "swapped", "wrapf"}
 \* hijack: the handler takes over the connection (the next user of the context must find a working writer);
 \* txnlookup: the handler routes its request by hand through a read-only transaction (View + Txn.Lookup)
 RouteShapes == {"direct", "tsr", "lookup", "lookupclone", "clonewith", "clone", "tsrclone", "hostdirect", "hosttsr", "statichost",
-                "hijack", "txnlookup", "staticdirect", "statictsr", "tsrclonewith", "tsrlookup", "wrapclone", "directcopy"}
+                "hijack", "txnlookup", "staticdirect", "statictsr", "tsrclonewith", "tsrlookup", "wrapclone", "directcopy",
+                "swapped", "wrapf"}
+\* swapped: the handler observes, then replaces the context's request (SetRequest, a foreign request whose query it
+\* then reads) and writer (SetWriter) - whoever gets this context next must see nothing of either; wrapf: the handler is
+\* an http.HandlerFunc behind WrapF: it gets the current request's parameters, as a copy of its own that stays as it is
 \* directcopy / noroutecopy: a middleware in front of everything hands a CloneWith copy of the context down the chain;
 \* the route handler / the no-route handler then works on the copy
 \* staticdirect / statictsr: a route without any parameter, matched directly / through an ignored trailing slash (the
@@ -27,6 +32,7 @@ RouteShapes == {"direct", "tsr", "lookup", "lookupclone", "clonewith", "clone", 
 \* writer of the caller's own type, then Clone of the copy before anything is written
 StaticShapes == {"staticdirect", "statictsr"}
 CloneShapes == {"lookupclone", "clone", "tsrclone", "wrapclone"}
+KeptParamShapes == {"wrapf"}      \* what is kept is the parameter list handed to the wrapped handler
 HostParamShapes == {"hostdirect", "hosttsr"}
 
 ScopeOf(shape) ==
